@@ -252,9 +252,10 @@ def ldProofVerify (L : LdEnv) (key : Key) (canonicalizes : Bool) (jwsParts : Nat
       key of the issuer, the proof must be valid at the time, the key is resolved by that verificationMethod, then
       LDProof.Verify -/
 
-def vcJsonLdProof (E : Env) (L : LdEnv) (issuer vm : String) (didOf : String → String) (validAt : Bool)
+def vcJsonLdProof (E : Env) (L : LdEnv) (proofIsObject : Bool) (issuer vm : String) (didOf : String → String) (validAt : Bool)
     (canonicalizes : Bool) (jwsParts : Nat) (sigDecodes : Bool) : Outcome :=
-  if vm = "" then .reject                                         -- "missing proof"
+  if !proofIsObject then .reject                                  -- UnmarshalProofValue: a `proof` array (proof set) does not unmarshal
+  else if vm = "" then .reject                                    -- "missing proof"
   else if didOf vm = "" || didOf vm ≠ issuer then .reject          -- errVerificationMethodNotOfIssuer
   else if !validAt then .reject
   else match E.resolve vm with
